@@ -183,8 +183,13 @@ def rule_a(ctx):
         pi, ps, pd = c.params[1:4]
         amc.let("out", f"self.apply_balance({pi})")
         stmts = [x for x in c.node.body if not (isinstance(x, ast.Expr) and isinstance(x.value, ast.Constant))]
-        ctx.ob(R, c.qname, "__call__ = find_balance(src, dst); return self.apply_balance(img)", amc.eq_block(stmts, [f"self.find_balance({ps}, {pd})", "return out"]),
-               str([norm(x)[:70] for x in stmts]), c.node)
+        ok_call = amc.eq_block(stmts, [f"self.find_balance({ps}, {pd})", "return out"])
+        # named contradiction: the result is computed in place with the scaling instead of through self.apply_balance -- subclasses that
+        # override apply_balance (the affine classes add the translation there) are bypassed
+        calls_ap = any(isinstance(x, ast.Call) and norm(x.func) == "self.apply_balance" for x in ast.walk(c.node))
+        inline = any(isinstance(x, ast.BinOp) and isinstance(x.op, ast.MatMult) and "self.balance_scaling" in (norm(x.left), norm(x.right)) for x in ast.walk(c.node))
+        ctx.ob(R, c.qname, "__call__ = find_balance(src, dst); return self.apply_balance(img)", ok_call,
+               str([norm(x)[:70] for x in stmts]), c.node, evidence=(not calls_ap and inline))
     # statements after the stage fit
     body = f.node.body
     idx = max(i for i, s in enumerate(body) if any(isinstance(c, ast.Call) and norm(c.func) == f"{stage}.find_balance" for c in ast.walk(s)))
